@@ -288,7 +288,8 @@ def write_evidence(prop, tier, seed, n_ob, n_ok, n_b, n_bok, groups_ev, samples,
         'trusted_base': ['clang 14 AST dump + /verif/tools/cxx2c.py (must-fire extraction)', 'cbmc 6.11.0 / goto-instrument --dfcc',
                          'SAT/SMT back ends (minisat; kissat/cvc5 cross-check in the thorough tier)',
                          'rely/guarantee meta-argument of DESIGN.md 2.4 (its side lemmas are machine checked in the *_lemma groups)',
-                         'stub contracts of std:: and libm (listed under assumptions)'],
+                         'stub contracts of std:: and libm (listed under assumptions)',
+                         'one preprocessor configuration (x86-64 Linux, build defines of vcheck.DEFS): conditional directives are compared with the baseline of contracts/signatures.json, a new one makes the check undecided'],
         'samples': samples or [{'note': 'no tagged obligation sampled'}],
         'functions_under_contract': funcs,
         'groups': groups_ev,
